@@ -215,6 +215,28 @@ pub fn run(ctx: &Ctx) -> i32 {
             cases.push((def.to_string(), st.to_string(), input.clone(), true));
         }
         crate::drivers::run_layer(&col, &cases, &|_| "non-ascii".to_string());
+        // statements that fail while running (pattern that does not compile, failing cast, unknown column, division by
+        // zero) and statements around them: the same list forwards / backwards / twice in one thread
+        let mut err_cases: Vec<(String, String, Vec<String>)> = Vec::new();
+        for st in [
+            "SELECT k FROM t WHERE regexp_matches(s, 'caf(')",
+            "SELECT COUNT(*) FROM t WHERE NOT regexp_matches(s, '[a-')",
+            "SELECT k FROM t WHERE regexp_matches(s, 'caf')",
+            "SELECT k, regexp_matches(s, k) FROM t",
+            "SELECT s::int FROM t",
+            "SELECT nosuch FROM t",
+            "SELECT length(s) / (length(k) - 1) FROM t",
+            "SELECT k, COUNT(*) FROM t WHERE regexp_matches(s, '(') GROUP BY k",
+            "SELECT k, s FROM t",
+        ] {
+            err_cases.push((def.to_string(), st.to_string(), input.clone()));
+        }
+        let (fs, evals) = crate::drivers::order_independent(&err_cases, "failing-statements");
+        col.eval(evals);
+        for f in fs {
+            col.fail(f);
+        }
+        col.layer("statements that fail while running: forwards / backwards / twice in one thread", err_cases.len() as u64, true, json!({"statements": err_cases.iter().map(|c| c.1.clone()).collect::<Vec<_>>()}));
     }
     finish(
         ctx,
